@@ -106,6 +106,7 @@ type c15Dag struct {
 	data  [][]byte
 	byCid map[string]int
 	kids  [][]int // child indices in field order (with repetitions)
+	ident int     // index of the node under an identity CID, -1 = none
 }
 
 // c15Build makes the DAG of a case. Inner nodes are dag-cbor/CIDv1 or dag-pb/CIDv0. The last node can be
@@ -116,7 +117,7 @@ type c15Dag struct {
 //	ident : a raw block under an identity-multihash CID
 //	raw0  : a zero-length raw block
 func c15Build(cs C15Case) *c15Dag {
-	d := &c15Dag{cids: make([][]byte, cs.N), data: make([][]byte, cs.N), byCid: map[string]int{}, kids: make([][]int, cs.N)}
+	d := &c15Dag{cids: make([][]byte, cs.N), data: make([][]byte, cs.N), byCid: map[string]int{}, kids: make([][]int, cs.N), ident: -1}
 	// pair index
 	mult := func(i, j int) int {
 		k := 0
@@ -168,6 +169,7 @@ func c15Build(cs C15Case) *c15Dag {
 		}
 		switch {
 		case special == "ident":
+			d.ident = i
 			d.cids[i] = refcar.CIDv1(refcar.CodecRaw, refcar.MhIdentity, d.data[i])
 		case special != "":
 			dg, _ := refcar.Digest(refcar.MhSha256, d.data[i])
@@ -241,12 +243,25 @@ type c15Store struct {
 	log      []int // node indices in load order (successful loads only)
 	missing  int   // node index absent from the store, -1 = none
 	notFound bool  // absent = format.ErrNotFound (merkledag) instead of traversal.SkipMe (ipld-prime)
+	// inline: the identity-CID node is loaded from its CID, never from the store: it cannot be absent and its loads are
+	// not logged (the reference of a writer that does not ask the store for identity blocks)
+	inline bool
+	full   []int // every successful load, those of an inline identity node included
+	// askedIdent: the store was asked for the identity node (served or not)
+	askedIdent bool
 }
 
 func (s *c15Store) get(c cid.Cid) ([]byte, error) {
 	i, ok := s.d.byCid[string(c.Bytes())]
 	if !ok {
 		return nil, format.ErrNotFound{Cid: c}
+	}
+	if i == s.d.ident {
+		s.askedIdent = true
+	}
+	if s.inline && i == s.d.ident {
+		s.full = append(s.full, i)
+		return s.d.data[i], nil
 	}
 	if i == s.missing {
 		if s.notFound {
@@ -255,6 +270,7 @@ func (s *c15Store) get(c cid.Cid) ([]byte, error) {
 		return nil, traversal.SkipMe{}
 	}
 	s.log = append(s.log, i)
+	s.full = append(s.full, i)
 	return s.d.data[i], nil
 }
 
@@ -394,8 +410,9 @@ type c15DagSpec struct {
 }
 
 type c15Ref struct {
-	log []int
-	err error
+	log  []int
+	err  error
+	full []int // log plus the loads of an identity node that is not asked of the store
 }
 
 func c15BasicChooser(ipld.Link, linking.LinkContext) (ipld.NodePrototype, error) {
@@ -407,8 +424,8 @@ func c15BasicChooser(ipld.Link, linking.LinkContext) (ipld.NodePrototype, error)
 // budget < 0 = none. Each walk has its own seen-links set and, unless shared is set, its own budget; with shared the
 // walks of all the Dags draw on one budget (whether MaxTraversalLinks bounds each Dag or the whole car is not
 // documented and not part of the statement).
-func c15Reference(ctx context.Context, d *c15Dag, cs C15Case, dags []c15DagSpec, once bool, budget int64, shared bool, chooser traversal.LinkTargetNodePrototypeChooser) c15Ref {
-	st := &c15Store{d: d, missing: c15Missing(cs)}
+func c15Reference(ctx context.Context, d *c15Dag, cs C15Case, dags []c15DagSpec, once bool, budget int64, shared bool, chooser traversal.LinkTargetNodePrototypeChooser, inline bool) c15Ref {
+	st := &c15Store{d: d, missing: c15Missing(cs), inline: inline}
 	ls := st.linkSystem()
 	var sharedBudget *traversal.Budget
 	if shared && budget >= 0 {
@@ -418,11 +435,11 @@ func c15Reference(ctx context.Context, d *c15Dag, cs C15Case, dags []c15DagSpec,
 		if dg.sel == "bytes" {
 			// hand model (the visit function that drains the bytes is go-car's): the root, then its links in order
 			if _, err := st.get(mustCid(d.cids[dg.root])); err != nil {
-				return c15Ref{st.log, err}
+				return c15Ref{st.log, err, st.full}
 			}
 			for _, k := range d.kids[dg.root] {
 				if _, err := st.get(mustCid(d.cids[k])); err != nil {
-					return c15Ref{st.log, err}
+					return c15Ref{st.log, err, st.full}
 				}
 			}
 			continue
@@ -435,7 +452,7 @@ func c15Reference(ctx context.Context, d *c15Dag, cs C15Case, dags []c15DagSpec,
 		np, _ := chooser(lnk, linking.LinkContext{})
 		rootNode, err := ls.Load(linking.LinkContext{Ctx: ctx}, lnk, np)
 		if err != nil {
-			return c15Ref{st.log, err}
+			return c15Ref{st.log, err, st.full}
 		}
 		prog := traversal.Progress{Cfg: &traversal.Config{
 			Ctx:                            ctx,
@@ -449,10 +466,10 @@ func c15Reference(ctx context.Context, d *c15Dag, cs C15Case, dags []c15DagSpec,
 			prog.Budget = &traversal.Budget{NodeBudget: math.MaxInt64, LinkBudget: budget}
 		}
 		if err := prog.WalkAdv(rootNode, sel, func(traversal.Progress, datamodel.Node, traversal.VisitReason) error { return nil }); err != nil {
-			return c15Ref{st.log, err}
+			return c15Ref{st.log, err, st.full}
 		}
 	}
-	return c15Ref{st.log, nil}
+	return c15Ref{st.log, nil, st.full}
 }
 
 // The reference result depends on the DAG, the Dags, link-visit-once, the budget and the prototype chooser only; the
@@ -464,14 +481,14 @@ type c15RefCache struct {
 
 var c15RefCaches sync.Map // worker scratch dir (one goroutine each) -> *c15RefCache
 
-func c15CachedReference(x *kit.Ctx, ctx context.Context, d *c15Dag, cs C15Case, dags []c15DagSpec, once bool, budget int64, shared, typed bool) c15Ref {
+func c15CachedReference(x *kit.Ctx, ctx context.Context, d *c15Dag, cs C15Case, dags []c15DagSpec, once bool, budget int64, shared, typed, inline bool) c15Ref {
 	v, _ := c15RefCaches.LoadOrStore(x.Dir, &c15RefCache{})
 	c := v.(*c15RefCache)
 	dagKey := fmt.Sprintf("%d%v|%s|%s|%d|%d|%d|%d", cs.N, cs.Mult, cs.Codec, cs.leafKind(), cs.Missing, cs.Big, cs.Sect, cs.IdentLen)
 	if c.dag != dagKey {
 		c.dag, c.m = dagKey, map[string]c15Ref{}
 	}
-	k := fmt.Sprintf("%v|%v|%d|%v|%v", dags, once, budget, shared, typed)
+	k := fmt.Sprintf("%v|%v|%d|%v|%v|%v", dags, once, budget, shared, typed, inline)
 	if r, ok := c.m[k]; ok {
 		return r
 	}
@@ -479,7 +496,7 @@ func c15CachedReference(x *kit.Ctx, ctx context.Context, d *c15Dag, cs C15Case, 
 	if typed {
 		ch = dagpb.AddSupportToChooser(c15BasicChooser)
 	}
-	r := c15Reference(ctx, d, cs, dags, once, budget, shared, ch)
+	r := c15Reference(ctx, d, cs, dags, once, budget, shared, ch, inline)
 	c.m[k] = r
 	return r
 }
@@ -588,29 +605,42 @@ func runC15(c any, x *kit.Ctx) {
 	defaultCfg := !cs.Opts.AllowDup && budget < 0
 
 	// reference traversals this run may legally coincide with
-	var refs []c15Ref
-	switch {
-	case cs.Writer == "v1-writecar":
-		// merkledag walk: modelled by reach() below, no load-order reference
-	case isV1:
-		refs = []c15Ref{c15CachedReference(x, ctx, d, cs, dags, cs.Once, budget, false, true)}
-		if len(dags) > 1 && budget >= 0 {
-			// one budget per Dag or one for the whole car: either reading of MaxTraversalLinks is accepted
-			refs = append(refs, c15CachedReference(x, ctx, d, cs, dags, cs.Once, budget, true, true))
+	// an identity CID carries its block: a writer may ask the store for it like for any other block, or take it from the
+	// CID (then the store's log does not show the load, and the block cannot be "absent"). Which of the two a pass did
+	// is read off its log (useRefs); the references of the second kind are walks over a store with that behaviour.
+	mkRefs := func(inline bool) []c15Ref {
+		var refs []c15Ref
+		switch {
+		case cs.Writer == "v1-writecar":
+			// merkledag walk: modelled by reach() below, no load-order reference
+		case isV1:
+			refs = []c15Ref{c15CachedReference(x, ctx, d, cs, dags, cs.Once, budget, false, true, inline)}
+			if len(dags) > 1 && budget >= 0 {
+				// one budget per Dag or one for the whole car: either reading of MaxTraversalLinks is accepted
+				refs = append(refs, c15CachedReference(x, ctx, d, cs, dags, cs.Once, budget, true, true, inline))
+			}
+		default:
+			if cs.Opts.AllowDup {
+				// the option is documented as ignored by the v2 root package and implemented as link-visit-once off: either is accepted
+				refs = append(refs, c15CachedReference(x, ctx, d, cs, dags, false, budget, false, cs.Chooser, inline))
+			}
+			refs = append(refs, c15CachedReference(x, ctx, d, cs, dags, true, budget, false, cs.Chooser, inline))
 		}
-	default:
-		if cs.Opts.AllowDup {
-			// the option is documented as ignored by the v2 root package and implemented as link-visit-once off: either is accepted
-			refs = append(refs, c15CachedReference(x, ctx, d, cs, dags, false, budget, false, cs.Chooser))
-		}
-		refs = append(refs, c15CachedReference(x, ctx, d, cs, dags, true, budget, false, cs.Chooser))
+		return refs
 	}
-	refFails, refSucceeds := false, false
-	for _, r := range refs {
-		if r.err != nil {
-			refFails = true
-		} else {
-			refSucceeds = true
+	refs := mkRefs(false)
+	var refFails, refSucceeds bool
+	inlineIdent := false // the current pass did not ask the store for the identity node
+	useRefs := func(log []int) {
+		inlineIdent = d.ident >= 0 && !st.askedIdent
+		refs = mkRefs(inlineIdent)
+		refFails, refSucceeds = false, false
+		for _, r := range refs {
+			if r.err != nil {
+				refFails = true
+			} else {
+				refSucceeds = true
+			}
 		}
 	}
 	sameLog := func(a, b []int) bool {
@@ -627,6 +657,7 @@ func runC15(c any, x *kit.Ctx) {
 
 	// failed: the writer returned err after loading log. Returns true when that is a legal refusal.
 	failed := func(err error, log []int, what string) {
+		useRefs(log)
 		x.Outcome("refused")
 		if cs.Writer == "v1-writecar" {
 			x.Fail("c15:unexpected-error:"+tag, "%s failed although every reachable node is served or ignorable: %v", what, err)
@@ -667,6 +698,7 @@ func runC15(c any, x *kit.Ctx) {
 	// succeeded: a successful pass must have loaded the nodes a reference traversal loads (as a set: the number and the
 	// order of the reads of the store are the writer's business; a log that differs is recorded as an outcome)
 	succeeded := func(log []int, what string) {
+		useRefs(log)
 		if cs.Writer == "v1-writecar" {
 			return
 		}
@@ -713,7 +745,35 @@ func runC15(c any, x *kit.Ctx) {
 			}
 			got = append(got, i)
 		}
-		if !sameLog(got, want) {
+		if inlineIdent {
+			// the identity block was loaded without the store: the blocks the store served must be in the first-visit
+			// order of the log; the identity block at most once, at the place where a reference walk that produces this
+			// log visits it first (no such walk: its place is not asserted)
+			var rest []int
+			n := 0
+			for _, i := range got {
+				if i == d.ident {
+					n++
+				} else {
+					rest = append(rest, i)
+				}
+			}
+			if n > 1 || !sameLog(rest, want) {
+				x.Fail("c15:blocks:"+tag, "%s: output blocks %v; the store served (first-visit order) %v and was not asked for the identity-CID node %d", what, got, want, d.ident)
+			} else {
+				placed, match := false, false
+				for _, r := range refs {
+					if r.err == nil && sameLog(r.log, writeLog) {
+						placed = true
+						match = match || sameLog(got, firstVisit(r.full))
+					}
+				}
+				if placed && !match {
+					x.Fail("c15:blocks:"+tag, "%s: output blocks %v; the reference walk with these store reads %v visits first %v", what, got, writeLog, firstVisit(refs[len(refs)-1].full))
+				}
+				x.Outcome("identity-block-inline")
+			}
+		} else if !sameLog(got, want) {
 			x.Fail("c15:blocks:"+tag, "%s: output blocks %v; the traversal loaded (first-visit order) %v; full load log %v", what, got, want, writeLog)
 		}
 		// absolute expectation from the adjacency lists (hand model), where the walk is order independent
@@ -731,12 +791,16 @@ func runC15(c any, x *kit.Ctx) {
 				if cs.Walker == "skip1" {
 					drop = 1
 				}
-				model = d.reach(rootIdx, missing, drop)
+				miss := missing
+				if inlineIdent && miss == d.ident {
+					miss = -1 // an identity block that is not asked of the store cannot be absent
+				}
+				model = d.reach(rootIdx, miss, drop)
 			case fieldSel:
 				model = map[int]bool{}
 				for _, r := range rootIdx {
 					model[r] = true
-					if len(d.kids[r]) > 0 && d.kids[r][0] != missing {
+					if len(d.kids[r]) > 0 && (d.kids[r][0] != missing || (inlineIdent && missing == d.ident)) {
 						model[d.kids[r][0]] = true
 					}
 				}
@@ -758,6 +822,19 @@ func runC15(c any, x *kit.Ctx) {
 	opts = o.List()
 	if budget >= 0 {
 		opts = append(opts, carv2.MaxTraversalLinks(uint64(budget)))
+	}
+	// a CID longer than the default MaxIndexCidSize (the identity-CID roots of the header sweep) may be refused by a
+	// writer that builds an index (documented: ErrCidTooLarge); the limit is lifted so that the writer has to succeed
+	if !o.NoIndex && o.MaxCid == 0 {
+		longest := 0
+		for _, c := range d.cids {
+			if len(c) > longest {
+				longest = len(c)
+			}
+		}
+		if longest > carv2.DefaultMaxIndexCidSize {
+			opts = append(opts, carv2.MaxIndexCidSize(uint64(longest)))
+		}
 	}
 	if cs.Chooser {
 		opts = append(opts, carv2.WithTraversalPrototypeChooser(dagpb.AddSupportToChooser(c15BasicChooser)))
@@ -811,7 +888,7 @@ func runC15(c any, x *kit.Ctx) {
 			failed(err, st.log, "NewSelectiveWriter (counting pass)")
 			return
 		}
-		st.log = nil // from here on: the writing pass
+		st.log, st.askedIdent = nil, false // from here on: the writing pass
 		var buf bytes.Buffer
 		n, err := w.WriteTo(&buf)
 		x.Transition(len(st.log))
@@ -983,7 +1060,7 @@ func runC15(c any, x *kit.Ctx) {
 		}
 		checkCbs(lists, "Write")
 		if cs.Writer == "v1-prepare-dump" {
-			st.log = nil
+			st.log, st.askedIdent = nil, false
 			lists2, fns2 := mkCbs()
 			prep, err := sc.Prepare(fns2...)
 			if err != nil {
